@@ -1,6 +1,7 @@
 //! Shared library of the CipherCore conformance harness.
 //! One binary per property family lives in src/bin/; they all link this library.
 pub mod compile;
+pub mod detleak;
 pub mod export;
 pub mod party3;
 pub mod prog;
